@@ -98,10 +98,12 @@ READ_DOMAIN_LEMMAS = ('a2mRead_nd', 'a2mRead_domain_text', 'a2mRead_domain_digit
 
 ROUND6_THEOREMS = ('weight_token_wellformed', 'weight_token_value', 'cutoff_token_wellformed', 'cutoff_token_value', 'printed_value_exact',
                    'printed_value_half_unit', 'weight_token_roundtrip', 'cutoff_token_roundtrip', 'weight_token_carried_iff', 'stockholm_seq_order_perm', 'stockholm_gr_order_perm', 'stockholm_seq_order_id', 'stockholm_gr_order_id',
-                   'stockholm_roundtrip_mention_partial', 'phylip_header_recognised', 'phylip_autodetect', 'phylip_autodetect_suffix')
+                   'stockholm_roundtrip_mention_partial', 'phylip_header_recognised', 'phylip_autodetect', 'phylip_autodetect_suffix',
+                   'weight_value_reread', 'weight_value_roundtrip_iff', 'cutoff_value_reread', 'weight_value_recorded', 'cutoff_value_recorded')
 ROUND6_LEMMAS = ('fmtFixed_read', 'fmtFixed_eq', 'wt_line_tokens', 'digitsVal_natDec', 'natDec_length_le', 'decTok_shape', 'fmtF2_fixed', 'fmtF1_fixed',
                  'stoGsReg_cases', 'regRest_perm', 'regNew_ok', 'permList_id', 'guess_phylipWrite', 'phyHeader_first', 'memstrcontains_words',
-                 'wgtTokOk_iff', 'cutoff_value_tokens', 'strtodIsMinusOne_neg', 'roundsToOne_hundredths', 'digitsVal_append', 'stoMention_project', 'stoMentionRoundTrip_of_writable', 'stoGrOrder_id_of_grOrderOk', 'regNew_range', 'filter_downclosed', 'stoProject_congr')
+                 'wgtTokOk_iff', 'cutoff_value_tokens', 'strtodIsMinusOne_neg', 'roundsToOne_hundredths', 'digitsVal_append', 'stoMention_project', 'stoMentionRoundTrip_of_writable', 'stoGrOrder_id_of_grOrderOk', 'regNew_range', 'filter_downclosed', 'stoProject_congr',
+                 'strtodBits_fixed', 'strtodBits_fmtF2', 'strtofBits_fmtF1', 'dec64_decimals', 'fixedQ_lt', 'numUpd_wt_line', 'numCutoffs_written', 'numCutoffs_written_one')
 
 
 class C03(Prop):
@@ -166,8 +168,11 @@ class C03(Prop):
                   "alignment, without one it is EXACTLY esl_msafile_phylip_CheckFileFormat's verdict on the output (`phylip_autodetect`, `phylip_autodetect_suffix`; exception set = where that "
                   "heuristic does not answer the format written, members proved by decide). (d) AFA text mode no longer accepts '>' as a residue (fix 2f545f8): `afa_reformat_stable_text` lost its "
                   "`afaNoGtB` hypothesis. "
+                  "(e) NUMERIC round trip (round 6b, on C01's exact strtod model Msafile/StoNum.lean): for EVERY finite weight strtod(printf('%.2f', w)) = sign bit + the binary64 number nearest to the printed "
+                  "two-decimal value (`weight_value_reread`), hence = w bit for bit exactly when w is the double nearest to the two-decimal number it prints as (`weight_value_roundtrip_iff`); cut-offs: "
+                  "(float) of the double nearest to the printed one-decimal value (`cutoff_value_reread`). "
                   "NOT PROVED (monitors + executable models only): Stockholm/Pfam multi-line #=GS values and optional arrays with no entry set; A2M with separate "
-                  "accessions; reformat stability for SELEX, Stockholm; the double VALUE strtod gives a weight / cut-off token (C01 models token -> double); the round trip up to the "
+                  "accessions; reformat stability for SELEX, Stockholm; the numeric values carried through the whole reader `stockholmReadV` (proved at token level only); the round trip up to the "
                   "first-mention permutation in general; autodetection of SELEX/PSI-BLAST output and a closed form of PHYLIP's ambiguous set.")
     level_note = ("Lean models of ALL ten writers (incl. stockholm_write with margins, wrapping, unique-name forcing and exact printf %.2f/%.1f; PHYLIP with ESL_MSAFILE_FMTDATA namewidth/rpl) "
                   "and ten readers are compared byte for byte / field for field with the library on every case. printf/strtod of 2-/1-decimal weights and cut-offs is trusted "
